@@ -6,6 +6,7 @@ from ..model import AnalysisError, stmt_text
 from ..symval import Evaluator, Tup, CallV, _single_atom
 from ..symcheck import Oracle, sym_ellipsoid, sym_projection, check_equal, leaves, show, compare_values
 from ..rules import ThreadRule, where
+from . import common
 from ..signtable import sign_source, negation_parity, Undecidable
 from ..mutate import replace_in_function, substitute
 from .c01 import alpha_items
@@ -304,6 +305,7 @@ def _argkey(v):
 
 def run(repo, rep):
     alg.reset()
+    common.state_rule(repo, rep, [('geodepy.convert', 'psfandgridconv'), ('geodepy.convert', 'geo2grid'), ('geodepy.convert', 'grid2geo')])
     rep.trust('sv/alg.py exact normal forms; generator independence modulo the rewrite rules applied')
     rep.trust('reference formulas: Karney-Krueger equations 26-28 (Deakin), sign convention grid bearing = azimuth + convergence')
     tr = ThreadRule(repo, _Only(rep, 'psfandgridconv'))
